@@ -360,6 +360,9 @@ def _check(impl, scn, st):
                 if ec != op["expect"]:
                     fail("recv-error", "%s on %s socket %s completed with ec=%s, expected %s" % (op["kind"], "a closed" if op["expect"] == "bad_desc" else "an unbound", op["name"], ec, op["expect"]))
                 continue
+            if ec not in ("ok", "aborted"):
+                fail("recv-error", "%s on the open, bound socket %s completed with ec=%s (only success or operation_aborted are possible)" % (op["kind"], op["name"], ec))
+                continue
             if op["kind"] == "wait_read": continue
             if ec == "ok":
                 desc = None
